@@ -144,11 +144,20 @@ def shear_shape(repo, run, r4, upd, stepfn, dcol, kcol):
                         if isinstance(sarg, ast.BinOp) and isinstance(sarg.op, ast.Add):
                             parts = {src(sarg.left), src(sarg.right)}
                             good = parts == {y0_p, "self.dState"}
+        # the slope must be evaluated in this stage, unconditionally: a cached attribute guarded by `if <cache> is None` may be stale
+        if good and isinstance(val, ast.BinOp):
+            operand = val.right if (isinstance(val.left, ast.Name) and val.left.id == h_p) else val.left
+            if not isinstance(operand, ast.Call):
+                defs = [s2 for s2 in ast.walk(stepfn) if isinstance(s2, ast.Assign) and any(src(t) == src(operand) for t in s2.targets)]
+                same_block = [s2 for s2 in defs if s2._parent is st._parent and s2.lineno < st.lineno]
+                if not same_block:
+                    good = False
         run.judged(r4, "slope: %s" % src(st), ok=good)
         if not good:
             okb = False
-            run.report("C10.4", rel, st, "a stage slope is not timestep * rhs(time, initial_state + self.dState): the sub-steps "
-                                        "are not shears evaluated at the running partial state")
+            run.report("C10.4", rel, st, "a stage slope is not timestep * rhs(time, initial_state + self.dState) evaluated unconditionally in that stage (a cached slope may "
+                                        "belong to another state): the sub-steps are not shears evaluated at the running partial state, so the map is neither "
+                                        "symplectic nor a function of (t, y, h) alone")
     # (c) drift_mask = 1 - kick_mask in __init__
     init = repo.get(rel, extract.SPLIT + ".__init__")
     run.analysed_fn(rel, init)
